@@ -180,8 +180,10 @@ TEXT["C14"] = {
             "operations on two iterator models each object returns exactly what it returns alone (induction over the "
             "schedule). Tied to the code by the multi stream: k >= 2 real iterators (C++ and C) driven in seeded "
             "interleavings, each object's output compared with its solo run and with the cursor oracle, long enough for "
-            "multi-segment generators and SievingPrimes refills. Partial: data-race freedom of concurrent user threads "
-            "under the C++ memory model is not expressible in the model.",
+            "multi-segment generators and SievingPrimes refills; and by the mt stream: 2..16 user threads running count / nth_prime / "
+            "generate / iterator calls concurrently (the calls spawn their own workers too), every result compared with the same "
+            "call made alone. Partial: data-race freedom of concurrent user threads under the C++ memory model is not "
+            "expressible in the model; the mt stream samples schedules, it does not enumerate them.",
     "design_ref": "DESIGN.md section 8 C14", "note": _IGEN + " The globals inventory is a textual scan (translator).",
     "technique": "Lean 4 frame theorem by induction over schedules + regenerated static-state inventory by decide + interleaving correspondence"}
 TEXT["C17"] = {
